@@ -173,12 +173,13 @@ Proof.
         destruct (lookup k kv) as [x|].
         - destruct (encode sub x) as [bx|e] eqn:Ex.
           + destruct (encode_fields encode kv r) as [br|]; [|discriminate He]. injection He as <-. eauto 8.
-          + destruct e; try discriminate He.
-            destruct c12_encode_swallows_nested_keyerror; [|discriminate He].
-            destruct (match p_default m with Some d => encode sub d | None => EErr EKey end) as [bd|] eqn:Ed;
-              [|discriminate He].
-            destruct (Hd _ eq_refl) as [d Hdd].
-            destruct (encode_fields encode kv r) as [br|]; [|discriminate He]. injection He as <-. eauto 8.
+          + destruct e; try discriminate He;
+              destruct c12_encode_swallows_nested_keyerror; try discriminate He;
+              destruct (match p_default m with Some d => encode sub d | None => EErr EKey end) as [bd|] eqn:Ed;
+              try discriminate He;
+              destruct (Hd _ eq_refl) as [d Hdd];
+              destruct (encode_fields encode kv r) as [br|]; try discriminate He;
+              injection He as <-; eauto 8.
         - destruct (match p_default m with Some d => encode sub d | None => EErr EKey end) as [bd|] eqn:Ed;
             [|discriminate He].
           destruct (Hd _ eq_refl) as [d Hdd].
